@@ -255,6 +255,7 @@ def run(run: common.Run):
                              what='the observed trace is not a run of the model')
         run.extra['traces_validated_against_impl'] = len(lines)
     compare_stats_threads(run, tmp)
+    free_running_stress(run, tmp)
 
 
 def compare_stats_threads(run, tmp):
@@ -326,6 +327,81 @@ def compare_stats_threads(run, tmp):
                     if not ((math.isnan(x) and math.isnan(y)) or abs(x - y) <= 1e-9 * max(1.0, abs(x))):
                         run.fail(dict(i=10**6 + 200 + th, op='stats', threads=th), f'stats differ between 1 and {th} threads: {a} vs {b}',
                                  signature=dict(kind='stats-threads'))
+
+
+def free_running_stress(run, tmp):
+    """
+    The controlled scheduler switches threads at lock and dataset operations only; a race inside plain Python code (a shared
+    accumulator updated by the workers) needs a switch between two byte-codes.  Here the real executor runs freely with the
+    interpreter's switch interval at 1 microsecond, many small blocks and 4 / 8 threads, repeatedly: compare statistics, parameter
+    statistics and fused images must equal the single-threaded results every time (N exactly, RMSE to 1e-6 relative, r2 - a difference of
+    large float32 sums - to 5e-5 absolute: the order of accumulation is free).  Sound: any difference is a schedule dependence; it is a search, not a proof of absence.
+    """
+    import sys
+    from homonim import RasterCompare, ParamStats
+    rng = run.rng('stress')
+    u = 8
+    ref = rasters.Grid(u * 7000, u * 3000, 4 * u, 4 * u, 40, 40)
+    src = rasters.Grid(ref.x0 + 6 * u, ref.ytop - 7 * u, 2 * u, 2 * u, 64, 64)
+    nb = 2
+    s = np.array([[[rng.randint(20, 200) for _ in range(src.w)] for _ in range(src.h)] for _ in range(nb)], float)
+    r = np.array([[[rng.randint(30, 150) for _ in range(ref.w)] for _ in range(ref.h)] for _ in range(nb)], float)
+    sv = np.ones((src.h, src.w), bool)
+    sv[5:9, 7:30] = False
+    pair = fusion.write_pair(tmp, 'c04_stress', src, ref, s, r, sv, None)
+    ph, pw = fusion.proc_window_shape(src, ref, True)
+    mbm = fusion.block_mem_for(5, ph, pw, src.px, ref.px, True)
+    reps = 12 if run.quick() else 120
+    old = sys.getswitchinterval()
+    warnings.simplefilter('ignore')      # (catch_warnings is not thread-safe: nested contexts in worker-heavy code restore filters at random)
+    with warnings.catch_warnings():
+        warnings.simplefilter('ignore')
+        with RasterCompare(pair.src_path, pair.ref_path) as cmp:
+            base_cmp = cmp.process(threads=1, max_block_mem=mbm)
+        base_fuse = fusion.run_fuse(pair.src_path, pair.ref_path, tmp / 'c04_stress_1.tif', model='gain-offset', kernel_shape=(3, 3),
+                                    threads=1, param=True, max_block_mem=mbm,
+                                    out_profile=dict(creation_options=dict(tiled=True, blockxsize=16, blockysize=16)))
+        with ParamStats(base_fuse.param_path) as ps:
+            base_st = ps.stats(threads=1)
+        base_sig = result_sig(base_fuse)
+        close = lambda x, y: (isinstance(x, str) and x == y) or (not isinstance(x, str) and (
+            (math.isnan(x) and math.isnan(y)) or abs(x - y) <= 1e-9 * max(1.0, abs(x))))
+        try:
+            sys.setswitchinterval(1e-6)
+            for k in range(reps):
+                th = (4, 8)[k % 2]
+                case = dict(i=2_000_000 + k, op='free-running stress', threads=th, repetition=k)
+                with RasterCompare(pair.src_path, pair.ref_path) as cmp:
+                    got = cmp.process(threads=th, max_block_mem=mbm)
+                run.evaluations += 1
+                run.hist['free-running stress: compare'] += 1
+                bad = [(k0, v0, v1) for (k0, v0), (k1, v1) in zip(base_cmp.items(), got.items())
+                       if k0 != k1 or v0['n'] != v1['n'] or abs(v0['r2'] - v1['r2']) > 5e-5 or
+                       any(abs(v0[q] - v1[q]) > 1e-6 * max(1.0, abs(v0[q])) for q in ('rmse', 'rrmse'))]
+                if bad or len(got) != len(base_cmp):
+                    run.fail(case, f'compare statistics with {th} free-running threads differ from the single-threaded run: {bad[:1]}',
+                             signature=dict(kind='compare-threads'))
+                    break
+                if k % 4 == 0:
+                    with ParamStats(base_fuse.param_path) as ps:
+                        st = ps.stats(threads=th)
+                    run.hist['free-running stress: stats'] += 1
+                    if any(not close(a[q], b[q]) for a, b in zip(base_st, st) for q in a):
+                        run.fail(case, f'parameter statistics with {th} free-running threads differ from the single-threaded run',
+                                 signature=dict(kind='stats-threads'))
+                        break
+                if k % 4 == 2:
+                    res = fusion.run_fuse(pair.src_path, pair.ref_path, tmp / 'c04_stress_n.tif', model='gain-offset', kernel_shape=(3, 3),
+                                          threads=th, param=True, max_block_mem=mbm,
+                                          out_profile=dict(creation_options=dict(tiled=True, blockxsize=16, blockysize=16)))
+                    run.hist['free-running stress: fuse'] += 1
+                    if not same(result_sig(res), base_sig):
+                        run.fail(case, f'fused images with {th} free-running threads differ from the single-threaded run',
+                                 signature=dict(kind='fuse-threads'))
+                        break
+        finally:
+            sys.setswitchinterval(old)
+    run.nontrivial.add(('stress', reps))
 
 
 def read_result_any(path):
